@@ -527,6 +527,41 @@ CHECKS['C17'] = dict(
 NOT_APPLICABLE = {}
 DESIGN_REF = {}
 LEVEL_NOTE = {}
+# ---- round 11: the environment a call runs in (DESIGN.md 10.6); appended to the evidence rules, with the counters that prove it happened
+ENV_RULE = {
+    'model': ' Every logged operation is entered with a stale errno value chosen by (case, operation); equal keys reach the container through copies that start 0..3 bytes into their block; '
+             'a call that does not return within 60 s of CPU is hang:operation. A twin job repeats the harness at about half the volume against the library compiled -O3 -DNDEBUG (release build).',
+    'twin': ' A twin job repeats the harness against the library compiled -O3 -DNDEBUG (release build).',
+}
+for _p in ('C01', 'C02', 'C03', 'C04', 'C05', 'C06', 'C07', 'C08', 'C09', 'C10', 'C12'):
+    CHECKS[_p]['rule'] += ENV_RULE['model']
+    CHECKS[_p]['require'] = list(CHECKS[_p].get('require', [])) + ['operations_entered_with_nonzero_errno']
+for _p in ('C13', 'C14', 'C15', 'C16', 'C18', 'C19', 'C20'):
+    CHECKS[_p]['rule'] += ENV_RULE['twin']
+CHECKS['C01']['rule'] += ' The installed (user) orderings of every third case leave ENOENT/ENOMEM/EINVAL/ERANGE/0 in errno on every call.'
+CHECKS['C01']['require'] += ['tables_whose_comparator_leaves_errno_values']
+CHECKS['C06']['rule'] += ' A second handle stays attached to the region for the whole life of the table, must observe the model after every operation, and the two handles swap roles at random.'
+CHECKS['C07']['rule'] += ' A second handle stays attached to the region for the whole life of the table, must observe the same keys, values, counters and walk as the model after every operation, and the two handles swap roles at random.'
+CHECKS['C07']['require'] = list(CHECKS['C07']['require']) + ['long_lived_second_handle_observations', 'operations_switched_to_the_other_handle']
+CHECKS['C08']['rule'] += ' Names include bytes >= 0x80; removes and unique puts are also issued through the name pointer of a stored entry; tables are saved under a lowered RLIMIT_FSIZE (SIGXFSZ ignored) and onto /dev/full: save() may refuse, a file reported as saved must reload completely.'
+CHECKS['C08']['require'] += ['removes_through_a_stored_name_pointer', 'size_limited_saves_refused', 'saves_onto_a_full_device']
+CHECKS['C09']['rule'] += ' Values of the edge lengths 15..4097 and the indexes INT_MIN, INT_MAX and other far-out values are part of the histories.'
+CHECKS['C09']['require'] += ['values_of_edge_length', 'extreme_indexes']
+CHECKS['C10']['rule'] += ' Elements are also added through the pointer of a stored element (a copy of element i at position j), and the indexes INT_MIN, INT_MAX and other far-out values are part of the histories.'
+CHECKS['C10']['require'] += ['adds_through_a_stored_element_pointer', 'extreme_indexes']
+CHECKS['C12']['rule'] += ' One replacement in four is a same-size value equal to the stored one up to its first NUL and different behind it.'
+CHECKS['C12']['require'] = list(CHECKS['C12'].get('require', [])) + ['replacements_equal_up_to_the_first_nul']
+CHECKS['C15']['rule'] += ' Before the injected call the container is read (non-mutating, on every twin alike), and the battery runs its index-addressed operations at every position, the middle one first.'
+CHECKS['C16']['rule'] += ' Every codec call is entered with a stale errno value chosen by (input, call site).'
+CHECKS['C16']['require'] = list(CHECKS['C16'].get('require', [])) + ['operations_entered_with_nonzero_errno']
+CHECKS['C17']['rule'] += ' Every call is entered with a stale errno value chosen by (case, call number).'
+CHECKS['C17']['require'] = list(CHECKS['C17'].get('require', [])) + ['operations_entered_with_nonzero_errno']
+CHECKS['C18']['rule'] += ' In the non-ASan job every file range is digested a second time with RLIMIT_AS at 4 KiB (mmap and larger allocations fail): the call may refuse, a digest it delivers must be that of the requested bytes.'
+CHECKS['C19']['rule'] += ' qstrtok additionally gets its delimiters in one mutable buffer whose contents change between calls (delimiter set changed after the first field; two strings tokenised alternately), every step checked exactly.'
+CHECKS['C19']['require'] = list(CHECKS['C19'].get('require', [])) + ['tokenizer_shared_buffer_scenarios']
+CHECKS['C20']['rule'] += ' Every third document is also delivered through a named pipe in odd-sized pieces (the second parse of an Apache document, the only parse of an INI file), every fourth of those with a signal (handler without SA_RESTART) while the reader is blocked; every parse is entered with a stale errno value.'
+CHECKS['C20']['require'] = list(CHECKS['C20'].get('require', [])) + ['documents_delivered_through_a_fifo', 'fifo_deliveries_with_a_signal_in_the_middle', 'operations_entered_with_nonzero_errno']
+
 TECHNIQUE = {
     'C17': 'ASan/UBSan on exact-size inputs + CPU/allocation/byte budgets (bounded-progress watchdog) over exhaustive short strings and grammar-aware mutation; valgrind and libFuzzer in the thorough tier',
     'C20': 'grammar-based document generation with reference interpreters on the abstract document; recorded callback stream / entry chain compared verbatim',
